@@ -231,12 +231,7 @@ fn ring4_l4() {
 fn ring4_l3_sqpoll() {
     run::<4>(3, true, 2, false);
 }
-// @ob C17 thorough ring8_l4 fns=IoUring::get_next_sqe_slot,IoUring::flush_submission_queue,IoUring::get_next_cqe bound="ring sizes 1,2,4,8; 4 steps; kernel batches j<=8 (5 steps gave no verdict in 3400 s)" timeout=3400 nocover=1
-#[kani::proof]
-#[kani::unwind(10)]
-fn ring8_l4() {
-    run::<8>(4, false, 8, false);
-}
+// (ring size 8: 5 steps and 4 steps both gave no verdict in 3400 s; no obligation registered)
 // @ob C17 thorough ring4_l6 fns=IoUring::get_next_sqe_slot,IoUring::flush_submission_queue,IoUring::get_next_cqe bound="ring sizes 1,2,4; 6 steps; kernel batches j<=4" timeout=3400 nocover=1
 #[kani::proof]
 #[kani::unwind(8)]
